@@ -55,7 +55,10 @@ func flight5Parse(
 		return 0, &alert.Alert{Level: alert.Fatal, Description: alert.HandshakeFailure}, dtlserrors.ErrVerifyDataMismatch
 	}
 
-	if len(state.SessionID) > 0 {
+	// A session whose master secret was derived without the extended master
+	// secret extension is not kept: it must not be resumed.
+	// https://www.rfc-editor.org/rfc/rfc7627#section-5.3
+	if len(state.SessionID) > 0 && state.ExtendedMasterSecret {
 		cfg.Log.Tracef("[handshake] save new session: %x", state.SessionID)
 		if err := cfg.SetSession(conn.SessionKey(), state.SessionID, state.MasterSecret); err != nil {
 			return 0, &alert.Alert{Level: alert.Fatal, Description: alert.InternalError}, err
